@@ -41,7 +41,7 @@ MUST_EXPIRE = ["gs.backoff", "gs.peerhave", "gs.iasked", "gs.peerdontwant", "gs.
 
 def consts(peers, maxlen, protos='{"flood", "v10", "v11", "v12", "v13"}', routers='{"gossipsub", "floodsub", "randomsub"}', dev=None):
     c = {"Peers": peers, "Protos": protos, "Routers": routers, "MaxLen": maxlen}
-    for d in DEVS + ["DevGiveUp"]:
+    for d in DEVS + ["DevGiveUp", "DevRefusedGraft"]:
         c[d] = (d == dev)
     return c
 
@@ -151,6 +151,11 @@ def features(evs):
                 s["subs"].discard("t1")
             elif k == "graft" and s["out"] == "up":
                 s["mesh"] = True
+                feats.add("graftUp")
+                if s.get("bo"):
+                    feats.add("graftUpBackoff")
+            elif k == "graftx" and s["out"] == "up":
+                feats.add("graftxUp")
             elif k in ("prune", "prunepx"):
                 s["mesh"] = False
                 s["bo"] = True
@@ -167,7 +172,7 @@ def features(evs):
     return feats
 
 
-STRATA = ["giveUpThenDown", "sendAfterGiveUp", "refusedGraftNoQueue", "pgfloodNoQueue", "meshDown", "unwDown", "fanoutDown", "controlDown", "topicsOutDown", "topicsInDown", "outFirst", "inFirst", "sendNoOut",
+STRATA = ["graftUp", "graftUpBackoff", "graftxUp", "giveUpThenDown", "sendAfterGiveUp", "refusedGraftNoQueue", "pgfloodNoQueue", "meshDown", "unwDown", "fanoutDown", "controlDown", "topicsOutDown", "topicsInDown", "outFirst", "inFirst", "sendNoOut",
           "sendNeverOut", "graftNoOut", "dup", "blMid", "late", "outFail", "outReset", "reconnect", "send:ihave",
           "send:iwant", "send:prune", "send:prunepx", "send:ext", "send:pubi", "send:pubv", "send:idontwant"]
 
@@ -229,6 +234,8 @@ def tlc_jobs(ctx, acc):
                                                 invariants=inv, view="MCView"), timeout=600, workers=2)
     jobs["mc-DevGiveUp"] = dict(cfg=vlib.cfg_text(spec="SpecR", constants=consts('{"p1"}', LR, protos='{"v11"}', routers='{"gossipsub"}', dev="DevGiveUp"),
                                                   invariants=["P_C13"], view="MCView"), timeout=600, workers=2)
+    jobs["mc-DevRefusedGraft"] = dict(cfg=vlib.cfg_text(constants=consts('{"p1"}', 6, protos='{"v11"}', routers='{"gossipsub"}', dev="DevRefusedGraft"),
+                                                        invariants=["P_C13"], view="MCView"), timeout=600, workers=2)
     jobs["gen-respawn"] = dict(cfg=vlib.cfg_text(spec="GenSpecR", constants=consts('{"p1"}', LR, **gs_only), invariants=["Emit"]), timeout=600, workers=2)
     if os.environ.get("C13_DEV_SKIP_MC"):      # development aid only (seeded-change trials)
         jobs = {k: v for k, v in jobs.items() if k.startswith("gen-")}
@@ -245,7 +252,7 @@ def tlc_jobs(ctx, acc):
         vlib.require_mc_ok(ctx, res["mc2"], "PeerLife (2 peers, <= %d events)" % L2, allow_timeout=ctx.thorough)
         acc["mc"]["1peer_len%d" % L1] = [res["mc1"].distinct, res["mc1"].generated]
         acc["mc"]["2peers_len%d" % L2] = [res["mc2"].distinct, res["mc2"].generated]
-        for d in DEVS + ["DevGiveUp"]:
+        for d in DEVS + ["DevGiveUp", "DevRefusedGraft"]:
             vlib.require_mc_fails(ctx, res["mc-" + d], "PeerLife with %s" % d, "P_C13")
             acc["mc"][d + "_fails_P_C13"] = True
         vlib.require_mc_ok(ctx, res["mc-respawn"], "PeerLife SpecR (respawn budget, <= %d events)" % LR)
@@ -284,7 +291,7 @@ def build_scenarios(ctx, by_len, walks, respawn, acc):
     short = [e for n in sorted(by_len) if n <= 5 for e in by_len[n]]
     scns = []
 
-    def add(evs, router="gossipsub", combo=None, proto=None):
+    def add(evs, router="gossipsub", combo=None, proto=None, full=False, direct=False, score=None, dir_=None):
         i = len(scns) + ctx.seed if combo is None else combo
         peers = {}
         for j, p in enumerate(sorted({e["p"] for e in evs if e["p"]})):
@@ -294,8 +301,10 @@ def build_scenarios(ctx, by_len, walks, respawn, acc):
                 pr = "flood"
             elif router == "randomsub":
                 pr = ["random", "flood"][x % 2]
-            peers[p] = {"proto": pr, "score": SCORES[(x // 5) % 3], "dir": DIRS[(x // 15) % 2]}
-        scns.append({"id": len(scns), "router": router, "by": (i // 30) % 2 == 0 and router == "gossipsub", "peers": peers, "evs": evs})
+            peers[p] = {"proto": pr, "score": SCORES[(x // 5) % 3] if score is None else score, "dir": dir_ or DIRS[(x // 15) % 2],
+                        "direct": direct and router == "gossipsub"}
+        scns.append({"id": len(scns), "router": router, "by": (i // 30) % 2 == 0 and router == "gossipsub", "full": full and router == "gossipsub",
+                     "peers": peers, "evs": evs})
 
     if ctx.thorough:
         for k, evs in enumerate(short):                    # every lifecycle <= 5 events with every protocol version
@@ -318,6 +327,23 @@ def build_scenarios(ctx, by_len, walks, respawn, acc):
     rng.shuffle(walks)
     for evs in walks[:nw]:
         add(evs)
+    # GRAFT outcomes by refusal branch: lifecycles with a GRAFT received while the node has its outbound stream, replayed so that the
+    # GRAFT is refused because (a) the mesh is full and the peer dialled us (bootstrapper-style node, Dhi = 0), (b) the peer is a direct
+    # peer, (c) its score is negative; (d) admitted by the same full node from a peer the node dialled.  (Refused for backoff = PRUNE then
+    # GRAFT, refused for unknown topic = graftx, are ordinary lifecycles of the pool.)
+    gpool = [evs for evs in short + by_len.get(6, []) if features(evs) & {"graftUp", "graftxUp"}]
+    ng = 60 if ctx.thorough else 14
+    for variant in ("full-in", "direct", "negative", "full-out"):
+        for k, evs in enumerate(stratified(gpool, ng, 2, rng)):
+            pr = ["v11", "v13", "v12", "v10"][k % 4]
+            if variant == "full-in":
+                add(evs, combo=k + ctx.seed, proto=pr, full=True, dir_="in", score=[0, 3][k % 2])
+            elif variant == "full-out":
+                add(evs, combo=k + ctx.seed, proto=pr, full=True, dir_="out", score=[0, 3][k % 2])
+            elif variant == "direct":
+                add(evs, combo=k + ctx.seed, proto=pr, direct=True, score=[0, 3][k % 2])
+            else:
+                add(evs, combo=k + ctx.seed, proto=pr, score=-1)
     # respawn budget: every lifecycle in which the dead-peer backoff gives the still-connected peer up (thorough; a seeded
     # sample in quick) and a sample of those that stay within the budget
     gave = [evs for evs in respawn if "giveUp" in features(evs)]
@@ -486,9 +512,11 @@ def slim(row):
     a = row["act"]
     if a.get("a") == "reset":
         cfg = a["cfg"]
-        peers = {p: {"proto": "v11", "pos": False} for p in ("p1", "p2")}
+        peers = {p: {"proto": "v11", "pos": False, "refuse": False, "neg": False} for p in ("p1", "p2")}
+        gs = cfg.get("router", "gossipsub") == "gossipsub"
         for p, pc in cfg.get("peers", {}).items():
-            peers[p] = {"proto": pc["proto"], "pos": pc["score"] > 0}
+            peers[p] = {"proto": pc["proto"], "pos": pc["score"] > 0,
+                        "refuse": gs and bool(pc.get("direct") or (cfg.get("full") and pc["dir"] == "in")), "neg": gs and pc["score"] < 0}
         return {"a": "reset", "scn": row["scn"], "i": 0, "router": cfg.get("router", "gossipsub"), "peers": peers}
     lab = a.get("c13") or {}
     out = {"a": a.get("a", ""), "scn": row["scn"], "i": row["i"], "e": lab.get("e", ""), "p": lab.get("p", ""), "k": lab.get("k", ""),
@@ -508,7 +536,10 @@ class Obligations:
         self.ob = {k: 0 for k in ["out_dies_first", "in_dies_first", "rpc_on_inbound_outliving_outbound", "rpc_without_outbound_ever",
                                   "duplicate_inbound", "blacklist_midlife", "score_retained", "score_forgotten", "late_validation",
                                   "newstream_failed", "reconnect", "respawn_after_reset", "respawn_gave_up_then_disconnected",
-                                  "refused_graft_without_queue"]}
+                                  "refused_graft_without_queue", "graft_refused_mesh_full_inbound_peer_then_disconnected",
+                                  "graft_refused_direct_peer_then_disconnected", "graft_refused_negative_score_then_disconnected",
+                                  "graft_refused_backoff_then_disconnected", "graft_unknown_topic_then_disconnected",
+                                  "graft_admitted_full_mesh_outbound_peer"]}
         self.protos, self.populated, self.cleared, self.expired = {}, {}, {}, {}
 
     def update(self, scn, rows):
@@ -519,6 +550,7 @@ class Obligations:
         conns = {p: 0 for p in scn["peers"]}
         deaths = {p: 0 for p in scn["peers"]}       # outbound streams that died while the connection stayed up
         gaveup = {p: False for p in scn["peers"]}
+        refused = {p: set() for p in scn["peers"]}   # refusal branches of handleGraft this peer went through (with an outbound stream up)
         gone_keys = {}
         for ln in rows[1:]:
             lab = ln["act"].get("c13") or {}
@@ -557,6 +589,25 @@ class Obligations:
                     deaths[p] += 1
                     if deaths[p] == 5:      # backoff.go MaxBackoffAttempts = 4: this death is not respawned
                         gaveup[p] = True
+                if e == "Send" and gs and "gs.peers" in before and p in ln["recv_from"]:
+                    pc, k = scn["peers"][p], lab.get("k")
+                    if k == "graftx":
+                        refused[p].add("graft_unknown_topic_then_disconnected")
+                    elif k == "graft" and "gs.mesh" not in before and "gs.mesh" not in after:
+                        if pc.get("direct"):
+                            refused[p].add("graft_refused_direct_peer_then_disconnected")
+                        elif "gs.backoff" in before:
+                            refused[p].add("graft_refused_backoff_then_disconnected")
+                        elif pc["score"] < 0:
+                            refused[p].add("graft_refused_negative_score_then_disconnected")
+                        elif scn.get("full") and pc["dir"] == "in" and "gs.backoff" in after:
+                            refused[p].add("graft_refused_mesh_full_inbound_peer_then_disconnected")
+                    elif k == "graft" and scn.get("full") and pc["dir"] == "out" and "gs.mesh" in after and "gs.mesh" not in before:
+                        ob["graft_admitted_full_mesh_outbound_peer"] += 1
+                if e == "ConnDown":
+                    for o in refused[p]:
+                        ob[o] += 1
+                    refused[p] = set()
                 if e == "ConnDown" and gaveup[p]:
                     ob["respawn_gave_up_then_disconnected"] += 1
                     gaveup[p] = False
